@@ -226,7 +226,7 @@ def run_check(prop, tier, seed):
     n_x = 60 if tier == "quick" else 600
     for q in plan.contracts:
         c = ctx.db.get(q)
-        if not c.verify or c.harness is not None or getattr(c, "no_differential", False):
+        if not c.verify or (c.harness is not None and c.diff is None) or getattr(c, "no_differential", False):
             continue
         try:
             n, mm = RP.differential(ctx.src, c, n=n_x, seed=seed, atoms={"allow_ob": True})
@@ -327,7 +327,7 @@ def decide_and_report(prop, plan, ctx, verdicts, xchk, oracle, canary, audit, st
                     atoms = RP.atoms_of([RP.from_json(x) for x in v.model.values() if isinstance(x, (dict, str, int))])
                     atoms["allow_ob"] = True
                     c = ctx.db.get(q)
-                    if c.harness is None:
+                    if c.harness is None or c.diff is not None:
                         dom = []
                         for pat, ex_ in (plan.relevance or {}).items():
                             if pat in v.name and isinstance(ex_, tuple) and ex_[0] == "within" and (":path" in pat or "html_escape" in pat):
@@ -372,7 +372,7 @@ def decide_and_report(prop, plan, ctx, verdicts, xchk, oracle, canary, audit, st
                 tried_diff.add(q)
                 try:
                     c = ctx.db.get(q)
-                    if c.harness is None and c.verify:
+                    if (c.harness is None or c.diff is not None) and c.verify:
                         dom = []
                         for pat, ex_ in (plan.relevance or {}).items():
                             if pat in v.name and isinstance(ex_, tuple) and ex_[0] == "within":
